@@ -145,6 +145,61 @@ Theorem ne_term_spec : forall x t w, x <> 0 -> 1 - x <> 0 -> w * t <> 0 -> w * (
   ne_term false x t w = {| f_k := 0 + 0; f_logs := [(- (w * t), vq x); (- (w * (1 - t)), vq (1 - x))] |}.
 Proof. exact ne_term_prob. Qed.
 
+(* ---- non-vacuity: the hypotheses are satisfiable and the models compute the expected values ---- *)
+Definition q (a : Z) (b : positive) : Qc := mkq a b.
+Definition ex_r2 : r2_cfg := {| r2_mode := 2; r2_p := 1; r2_w := None |}.
+(* variance_weighted, num_regressors = 1, n = 4: RSS 2, TSS 5, R^2 = 3/5, adjusted 1 - (2/5)(3/2) = 2/5 *)
+Example r2_adjusted_example :
+  r2_out_val (r2_cmp ex_r2 (r2_stat ex_r2 (b1d [q 1 1; q 2 1; q 2 1; q 5 1] [q 1 1; q 2 1; q 3 1; q 4 1] None))) = VQ 2 5.
+Proof. vm_compute. reflexivity. Qed.
+Example r2_spec_hypotheses_satisfiable :
+  let ts := [q 1 1; q 2 1; q 3 1; q 4 1] in
+  r2_w ex_r2 = None /\ ts <> [] /\ mkq 2 1 <= lenQ ts /\ mkq (r2_p ex_r2) 1 < lenQ ts - 1
+  /\ sumQ (map (fun t => sq (t - sumQ ts / lenQ ts)) ts) <> 0.
+Proof.
+  cbv zeta. split; [reflexivity|]. split; [discriminate|]. split; [apply qle_iff; reflexivity|].
+  split; [apply qlt_iff; reflexivity|]. intro E. apply qeq_iff in E. vm_compute in E. discriminate.
+Qed.
+Example r2_guard_example :    (* n = 2, num_regressors = 1 >= n - 1 *)
+  r2_out_val (r2_cmp ex_r2 (r2_stat ex_r2 (b1d [q 1 1; q 2 1] [q 1 1; q 2 1] None))) = verr "ValueError".
+Proof. vm_compute. reflexivity. Qed.
+Example r2_constant_target_example :   (* TSS = 0, RSS > 0: 1 - inf = -inf (IEEE), as torch returns *)
+  r2_out_val (r2_cmp {| r2_mode := 0; r2_p := 0; r2_w := None |}
+                (r2_stat ex_r2 (b1d [q 1 1; q 2 1; q 0 1] [q 3 1; q 3 1; q 3 1] None))) = VT "ninf" [].
+Proof. vm_compute. reflexivity. Qed.
+Example mse_weighted_example :   (* (1/2 * 1 + 3/2 * 4) / 2 = 13/4 *)
+  let c := {| mse_raw := false; mse_w := None |} in
+  xnd_val (mse_cmp c (mse_stat c (b1d [q 1 1; q 3 1] [q 0 1; q 1 1] (Some [q 1 2; q 3 2])))) = VQ 13 4.
+Proof. vm_compute. reflexivity. Qed.
+Example cov_example :
+  cov_out_val (cov_cmp (cov_stat 2 [[q 1 1; q 2 1]; [q 3 1; q 1 2]; [q 0 1; q 5 1]]))
+  = VL [VL [VQ 4 3; VQ 5 2]; VL [VL [VQ 7 3; VQ (-13) 4]; VL [VQ (-13) 4; VQ 21 4]]].
+Proof. vm_compute. reflexivity. Qed.
+(* AUC(reorder=True) inside an x-tie: the stable sort keeps the input order, so the value depends on it (C12) *)
+Example auc_tie_order_example :
+  vq (auc_row true [q 0 1; q 1 1; q 1 1; q 3 1] [q 0 1; q 1 1; q 3 1; q 0 1]) = VQ 7 2
+  /\ vq (auc_row true [q 0 1; q 1 1; q 1 1; q 3 1] [q 0 1; q 3 1; q 1 1; q 0 1]) = VQ 5 2.
+Proof. vm_compute. split; reflexivity. Qed.
+Example wasserstein_examples :   (* a shift by 5 costs 5; weighted, unsorted, tied samples *)
+  vq (wass [q 0 1; q 1 1; q 3 1] [q 1 1; q 1 1; q 2 1] [q 5 1; q 6 1; q 8 1] [q 1 1; q 1 1; q 2 1]) = VQ 5 1
+  /\ vq (wass [q 3 1; q 1 1; q 1 1] [q 1 2; q 1 1; q 2 1] [q 1 1; q 2 1] [q 3 1; q 1 1]) = VQ 1 4.
+Proof. vm_compute. split; reflexivity. Qed.
+Example psnr_examples :   (* auto range 1, mse 1/8: 10*log10(8); no data: nan *)
+  p_cmp (fold_left (p_upd None) [([q 1 2; q 1 1], [q 0 1; q 1 1])] (p_init None)) = rmul (VZ 10) (rlog10 (VQ 8 1))
+  /\ p_cmp (p_init None) = VT "nan" [].
+Proof. vm_compute. split; reflexivity. Qed.
+Example perplexity_ignore_index_example :   (* the token with target 2 = ignore_index is dropped *)
+  vq (snd (px_stat (Some 2%Z) [[q 1 1; q 0 1]; [q 0 1; q 2 1]; [q 1 2; q 1 2]] [0%Z; 2%Z; 1%Z])) = VQ 2 1
+  /\ form_val (fst (px_stat (Some 2%Z) [[q 1 1; q 0 1]; [q 0 1; q 2 1]] [0%Z; 2%Z]))
+     = radd (VQ (-1) 1) (rmul (VQ 1 1) (rln (radd (rexp (VQ 1 1)) (rexp (VQ 0 1))))).
+Proof. vm_compute. split; reflexivity. Qed.
+Example ne_clamp_example :   (* probability 0 for a positive of weight 2: the clamped logarithm gives 2 * 100 *)
+  form_val (ne_term false (q 0 1) (q 1 1) (q 2 1)) = VQ 200 1.
+Proof. vm_compute. reflexivity. Qed.
+Example max_example :
+  xq_val (cmp max_metric tt (fold_left (upd max_metric tt) [[q 1 1; q (-3) 1]; [q 5 2]] (init max_metric tt))) = VQ 5 2.
+Proof. vm_compute. reflexivity. Qed.
+
 Print Assumptions max_spec.
 Print Assumptions min_spec.
 Print Assumptions r2_suffstat_spec.
